@@ -20,6 +20,11 @@ CLAIMS['C19'] = dict(level='proof', technique='language equivalence of determini
     note='Trusted: syn + asd-syn, the regex parser (XSD semantics: "." excludes \\n and \\r) and automata library, the validator shape recognisers (fail closed outside the fragment). obligations = pairs; discharged = pairs proven equal; the difference is exactly the known findings.',
     ref='§4 C19')
 
+CLAIMS['C18'] = dict(level='proof', technique='exact finite decision over literal tables extracted from the syntax tree (bijections, index ranges, acyclicity, perfect-hash totality via a source-tied arithmetic model) + MIR structure rules (comparison dominates transmute, sibling listing/lookup column agreement, table-index provenance)',
+    text='Exhaustive: every name of ElementName/AttributeName/EnumItem, all 21 versions and every cell of the specification tables is examined on each run; the name<->text bijection and rejection of non-members follow for ALL inputs from (discriminants = table indices) + (byte comparison dominates transmute). Listing/lookup agreement and DEST consistency are shown structurally (same cells read by both siblings).',
+    note='Trusted: syn + asd-syn literal extraction; the arithmetic model of hashfunc (tied to the source by skeleton hash and role-extracted constants; fails closed if hashfunc is restructured); little-endian target; rustc MIR. Does not decide agreement of the tables with the AUTOSAR XSDs.',
+    ref='§4 C18')
+
 NA = {
     'C16': 'serialisability quantifies over interleavings and compares with sequential runs; the only static route (two-phase/reduction analysis) rejects essentially every public operation of the present design, so it cannot separate code that holds the property from code that does not',
     'C20': 'statement about numeric results (exactness, correct rounding, overflow per width) computed by std parsers for all texts; no static argument in reach bounds these run-time quantities',
